@@ -239,6 +239,42 @@ static int st_pop(long long *v)
   return s;
 }
 
+
+/* ---- multi-threaded use of a stack (esl_stack_UseMutex + UseCond + ReleaseCond): pushers and poppers run concurrently */
+#ifdef HAVE_PTHREAD
+#include <pthread.h>
+#include <sched.h>
+struct thr_push { ESL_STACK *s; char t; long long *v; int n; int stride; int start; int bad; };
+struct thr_pop  { ESL_STACK *s; char t; long long *got; int ngot; int cap; int eods; int bad; };
+static void *thr_pusher(void *arg)
+{
+  struct thr_push *a = arg; int i, st;
+  for (i = a->start; i < a->n; i += a->stride) {
+    if      (a->t == 'i') st = esl_stack_IPush(a->s, (int) a->v[i]);
+    else if (a->t == 'c') st = esl_stack_CPush(a->s, (char) a->v[i]);
+    else                  st = esl_stack_PPush(a->s, (void *)(intptr_t) a->v[i]);
+    if (st != eslOK) a->bad++;
+    if ((i & 7) == 0) sched_yield();
+  }
+  return NULL;
+}
+static void *thr_popper(void *arg)
+{
+  struct thr_pop *a = arg; int st; long long v;
+  for (;;) {
+    if      (a->t == 'i') { int x;   st = esl_stack_IPop(a->s, &x); v = x; }
+    else if (a->t == 'c') { char c;  st = esl_stack_CPop(a->s, &c); v = (unsigned char) c; }
+    else                  { void *q; st = esl_stack_PPop(a->s, &q); v = (long long)(intptr_t) q; }
+    if (st == eslEOD) { a->eods++; break; }
+    if (st != eslOK)  { a->bad++;  break; }
+    if (a->ngot < a->cap) a->got[a->ngot] = v;
+    a->ngot++;
+  }
+  return NULL;
+}
+static int cmp_ll(const void *x, const void *y) { long long a = *(const long long *) x, b = *(const long long *) y; return a < b ? -1 : (a > b); }
+#endif
+
 /* ---- quicksort comparison */
 struct qdata { long long *x; int mode; };   /* 0 asc, 1 desc, 2 coarse (x/8, floor) */
 static long long fdiv8(long long v) { return v >= 0 ? v / 8 : -((-v + 7) / 8); }
@@ -559,6 +595,43 @@ static void h_op(void)
     h_out("ok %s", h_hex(str, (int64_t) strlen(str)));
     free(str);
     ST = esl_stack_ICreate(); STYPE = 'i'; STCOND = 0;
+  }
+  else if (!strcmp(op, "st_threads")) {
+#ifdef HAVE_PTHREAD
+    /* P pusher threads share the values round-robin, Q popper threads pop until eslEOD; the main thread joins the pushers,
+     * calls esl_stack_ReleaseCond() and joins the poppers. Whatever the scheduler did: the popped values are exactly the
+     * pushed ones (reported sorted), nothing is left, every popper saw exactly one eslEOD. */
+    const char *t = h_arg("t"); char ty = t ? t[0] : 'i';
+    int P = (int) h_argi("pushers", 1), Q = (int) h_argi("poppers", 1), popfirst = (int) h_argi("popfirst", 0);
+    long long *v; int n = parse_ints(h_arg("v"), &v), i, j, bad = 0, tot = 0, eods = 0, left, st;
+    ESL_STACK *s = ty == 'i' ? esl_stack_ICreate() : (ty == 'c' ? esl_stack_CCreate() : esl_stack_PCreate());
+    pthread_t *tp, *tq; struct thr_push *ap; struct thr_pop *aq; long long *all;
+    if (P < 1 || P > 16 || Q < 1 || Q > 16 || !s) { free(v); if (s) esl_stack_Destroy(s); h_out("bad-op"); return; }
+    tp = malloc(sizeof(*tp) * (size_t) P); tq = malloc(sizeof(*tq) * (size_t) Q);
+    ap = calloc((size_t) P, sizeof(*ap)); aq = calloc((size_t) Q, sizeof(*aq)); all = malloc(sizeof(long long) * (size_t)(n + 1));
+    if (esl_stack_UseMutex(s) != eslOK) bad++;
+    if (esl_stack_UseCond(s)  != eslOK) bad++;
+    for (j = 0; j < Q; j++) { aq[j].s = s; aq[j].t = ty; aq[j].cap = n; aq[j].got = malloc(sizeof(long long) * (size_t)(n + 1)); }
+    for (i = 0; i < P; i++) { ap[i].s = s; ap[i].t = ty; ap[i].v = v; ap[i].n = n; ap[i].stride = P; ap[i].start = i; }
+    if (popfirst) { for (j = 0; j < Q; j++) pthread_create(&tq[j], NULL, thr_popper, &aq[j]); sched_yield(); usleep(200); }
+    for (i = 0; i < P; i++) pthread_create(&tp[i], NULL, thr_pusher, &ap[i]);
+    if (!popfirst) for (j = 0; j < Q; j++) pthread_create(&tq[j], NULL, thr_popper, &aq[j]);
+    for (i = 0; i < P; i++) { pthread_join(tp[i], NULL); bad += ap[i].bad; }
+    st = esl_stack_ReleaseCond(s); if (st != eslOK) bad++;
+    for (j = 0; j < Q; j++) { pthread_join(tq[j], NULL); bad += aq[j].bad; eods += aq[j].eods; }
+    for (j = 0; j < Q; j++) for (i = 0; i < aq[j].ngot; i++) { if (i < aq[j].cap && tot < n) all[tot] = aq[j].got[i]; tot++; }
+    left = esl_stack_ObjectCount(s);
+    qsort(all, (size_t)(tot < n ? tot : n), sizeof(long long), cmp_ll);
+    ob_reset();
+    for (i = 0; i < tot && i < n; i++) ob_int(all[i], i == 0);
+    if (tot > n) ob_add(",+%d-more", tot - n);
+    if (bad) h_out("esys bad=%d", bad); else h_out("ok popped=%s left=%d eods=%d", tot ? OB : "-", left, eods);
+    for (j = 0; j < Q; j++) free(aq[j].got);
+    free(tp); free(tq); free(ap); free(aq); free(all); free(v);
+    esl_stack_Destroy(s);
+#else
+    h_out("bad-op");
+#endif
   }
   /* ------------------------------------------------ quicksort */
   else if (!strcmp(op, "qsort")) {
